@@ -427,7 +427,7 @@ def bFold (isBuiltinName : Int → Bool) : Builtin := fun sp argv => do
       | some acc => foldGo f sp fromRight acc feed
       | none =>
         match feed with
-        | [] => throw (builtinErr .outOfRange sp)     -- empty fold without initial value (fix)
+        | [] => throw (valueErr sp)     -- empty fold without initial value
         | a :: rest => foldGo f sp fromRight a rest
     | _ => bottom
   | _ => bottom
@@ -470,7 +470,7 @@ def bJoin : Builtin := fun sp argv => do
       let pieces ← forceAll xs
       checkType sp pieces (fun v => v.isString || v.isBytes)
       match pieces with
-      | [] => throw (builtinErr .outOfRange sp)      -- joining an empty list (fix)
+      | [] => throw (valueErr sp)      -- joining an empty list
       | .str _ :: _ => do
         checkType sp pieces Val.isString
         let delim ← match rest with
